@@ -408,7 +408,7 @@ package server
 
 //@ func NewSet
 //@ assigns nothing
-//@ ensures {C18} result != nil && fresh(result) && len(result.members) == 0
+//@ ensures {C18} result != nil && fresh(result) && len(result.members) == 0 && fresh(result.members)
 
 //@ func (*Set).Members
 //@ requires noDupStr(set.members)
@@ -468,7 +468,7 @@ package server
 
 //@ func NewZSet
 //@ assigns nothing
-//@ ensures {C18} result != nil && fresh(result) && len(result.members) == 0
+//@ ensures {C18} result != nil && fresh(result) && len(result.members) == 0 && fresh(result.members)
 
 //@ func (*ZSet).Add
 //@ requires {C18} zsetOK(zset) && (forall k int :: 0 <= k && k < len(nms) ==> nms[k] != nil && !isNaN(nms[k].Score)) && arr(nms) != arr(zset.members)
@@ -477,8 +477,12 @@ package server
 //@ ensures {C18} zSorted(zset)
 //@ ensures {C18} zUniq(zset)
 //@ ensures {C18} 0 <= result && result <= len(nms) && len(zset.members) == old(len(zset.members)) + result
+//@ ensures {C18} len(nms) == 1 ==> exists i int :: 0 <= i && i < len(zset.members) && zset.members[i] == old(nms[0])
 //@ loop 0
 //@   invariant -1 <= rangeindex && rangeindex < len(nms) && 0 <= addedMemberCount && addedMemberCount <= rangeindex + 1
+//@   invariant rangeindex == 0 ==> exists i int :: 0 <= i && i < len(zset.members) && zset.members[i] == old(nms[0])
+//@   invariant rangeindex == -1 ==> addedMemberCount == 0 && len(zset.members) == old(len(zset.members)) && forall i int :: 0 <= i && i < len(zset.members) ==> zset.members[i] == old(zset.members[i])
+//@   invariant forall k int :: 0 <= k && k < len(nms) ==> nms[k] == old(nms[k])
 //@   invariant len(zset.members) == old(len(zset.members)) + addedMemberCount && arr(nms) != arr(zset.members)
 //@   invariant zNN(zset)
 //@   invariant zSorted(zset)
@@ -505,3 +509,180 @@ package server
 //@   invariant len(zset.members) == old(len(zset.members)) + addedMemberCount - (isNewMember ? 0 : 1)
 //@   invariant forall i int :: 0 <= i && i <= rangeindex ==> zset.members[i].Score <= nm.Score
 //@   decreases len(zset.members) - rangeindex
+
+//@ func (*ZSet).Rem
+//@ requires {C18} zNN(zset) && zSorted(zset) && zUniq(zset) && arr(members) != arr(zset.members)
+//@ assigns zset.members, comp:E|Ref, alloc
+//@ ensures {C18} zNN(zset)
+//@ ensures {C18} zSorted(zset)
+//@ ensures {C18} zUniq(zset)
+//@ ensures {C18} len(zset.members) == old(len(zset.members)) - result && 0 <= result && result <= len(members)
+//@ ensures {C18} forall j int, i int :: 0 <= j && j < len(members) && 0 <= i && i < len(zset.members) ==> zset.members[i].Member != members[j]
+//@ loop 0
+//@   invariant -1 <= rangeindex && rangeindex < len(members) && 0 <= removedMemberCount && removedMemberCount <= rangeindex + 1
+//@   invariant len(zset.members) == old(len(zset.members)) - removedMemberCount && arr(members) != arr(zset.members)
+//@   invariant zNN(zset)
+//@   invariant zSorted(zset)
+//@   invariant zUniq(zset)
+//@   invariant forall j int, i int :: 0 <= j && j <= rangeindex && 0 <= i && i < len(zset.members) ==> zset.members[i].Member != members[j]
+//@   decreases len(members) - rangeindex
+//@ loop 1
+//@   invariant -1 <= rangeindex && rangeindex < len(zset.members)
+//@   invariant forall i int :: 0 <= i && i <= rangeindex ==> zset.members[i].Member != rm
+//@   decreases len(zset.members) - rangeindex
+
+//@ func (*ZSet).Score
+//@ requires {C18} zNN(zset)
+//@ assigns nothing
+//@ ensures {C18} !result1 ==> zAbsent(zset, member)
+//@ ensures {C18} result1 ==> exists i int :: 0 <= i && i < len(zset.members) && zset.members[i].Member == member && zset.members[i].Score == result0
+//@ loop 0
+//@   invariant -1 <= rangeindex && rangeindex < len(zset.members)
+//@   invariant forall i int :: 0 <= i && i <= rangeindex ==> zset.members[i].Member != member
+//@   decreases len(zset.members) - rangeindex
+
+//@ spec func limOff(n int, offset int) int = (offset < 0 ? 0 : (n < offset ? n : offset))
+//@ spec func limEnd(n int, offset int, count int) int = ((0 <= count && count < n - limOff(n, offset)) ? limOff(n, offset) + count : n)
+
+//@ func limitZSetMembers
+//@ assigns nothing
+//@ ensures {C18} arr(result) == arr(mems) && off(result) == off(mems) + limOff(len(mems), offset) && len(result) == limEnd(len(mems), offset, count) - limOff(len(mems), offset)
+//@ ensures {C18} forall i int :: 0 <= i && i < len(result) ==> result[i] == mems[limOff(len(mems), offset) + i]
+
+//@ func reverseZSetMembers
+//@ assigns elems(mems)
+//@ ensures {C18} result == mems
+//@ ensures {C18} forall i int :: 0 <= i && i < len(mems) ==> mems[i] == old(mems[len(mems) - 1 - i])
+//@ loop 0
+//@   invariant 0 <= i && i <= len(mems) / 2
+//@   invariant forall k int :: 0 <= k && k < i ==> mems[k] == old(mems[len(mems) - 1 - k]) && mems[len(mems) - 1 - k] == old(mems[k])
+//@   invariant forall k int :: i <= k && k < len(mems) - i ==> mems[k] == old(mems[k])
+//@   decreases len(mems) / 2 - i
+
+//@ func (*ZSet).Range
+//@ assigns comp:E|Ref, alloc
+//@ ensures {C18} len(zset.members) == old(len(zset.members)) && forall i int :: 0 <= i && i < len(zset.members) ==> zset.members[i] == old(zset.members[i])
+//@ ensures {C18} rangeLo(len(zset.members), start) > rangeHi(len(zset.members), stop) ==> len(result) == 0
+//@ ensures {C18} rangeLo(len(zset.members), start) <= rangeHi(len(zset.members), stop) && !opt.REV ==> len(result) == limEnd(rangeHi(len(zset.members), stop) - rangeLo(len(zset.members), start) + 1, opt.Offset, opt.Count) - limOff(rangeHi(len(zset.members), stop) - rangeLo(len(zset.members), start) + 1, opt.Offset)
+//@ ensures {C18} rangeLo(len(zset.members), start) <= rangeHi(len(zset.members), stop) && !opt.REV ==> forall i int :: 0 <= i && i < len(result) ==> result[i] == zset.members[rangeLo(len(zset.members), start) + limOff(rangeHi(len(zset.members), stop) - rangeLo(len(zset.members), start) + 1, opt.Offset) + i]
+//@ loop 0
+//@   invariant start == rangeLo(len(zset.members), old(start)) && stop == rangeHi(len(zset.members), old(stop)) && start <= n && 0 <= start && stop < len(zset.members)
+//@   invariant (start <= stop ==> n <= stop + 1 && len(mems) == n - start) && (start > stop ==> len(mems) == 0) && fresh(mems)
+//@   invariant forall i int :: 0 <= i && i < len(mems) ==> mems[i] == zset.members[start + i]
+//@   invariant len(zset.members) == old(len(zset.members)) && forall i int :: 0 <= i && i < len(zset.members) ==> zset.members[i] == old(zset.members[i])
+//@   decreases stop - n + 1
+
+//@ spec func scoreIn(x float64, min float64, max float64, minEx bool, maxEx bool) bool = !((x < min && !minEx) || (x <= min && minEx)) && !((max < x && !maxEx) || (max <= x && maxEx))
+
+//@ func (*ZSet).RangeByScore
+//@ requires {C18} zNN(zset)
+//@ assigns comp:E|Ref, alloc
+//@ ensures {C18} len(zset.members) == old(len(zset.members)) && forall i int :: 0 <= i && i < len(zset.members) ==> zset.members[i] == old(zset.members[i])
+//@ ensures {C18} opt.Offset == 0 && opt.Count < 0 && !opt.REV ==> forall i int :: 0 <= i && i < len(result) ==> result[i] != nil && scoreIn(result[i].Score, min, max, opt.MINEXCLUSIVE, opt.MAXEXCLUSIVE)
+//@ ensures {C18} opt.Offset == 0 && opt.Count < 0 && !opt.REV ==> forall i int :: 0 <= i && i < len(result) ==> exists k int :: 0 <= k && k < len(zset.members) && zset.members[k] == result[i]
+//@ loop 0
+//@   invariant -1 <= rangeindex && rangeindex < len(zset.members) && fresh(mems) && zNN(zset)
+//@   invariant len(zset.members) == old(len(zset.members)) && forall i int :: 0 <= i && i < len(zset.members) ==> zset.members[i] == old(zset.members[i])
+//@   invariant forall i int :: 0 <= i && i < len(mems) ==> mems[i] != nil && scoreIn(mems[i].Score, min, max, opt.MINEXCLUSIVE, opt.MAXEXCLUSIVE)
+//@   invariant forall i int :: 0 <= i && i < len(mems) ==> exists k int :: 0 <= k && k < len(zset.members) && zset.members[k] == mems[i]
+//@   decreases len(zset.members) - rangeindex
+
+//@ func (*ZSet).IncBy
+//@ requires {C18} zNN(zset) && zSorted(zset) && zUniq(zset) && !isNaN(inc)
+//@ assigns zset.members, ZSetMember.Score, comp:E|Ref, alloc
+//@ ensures {C18} zUniq(zset)
+//@ ensures {C18} len(zset.members) == old(len(zset.members)) || len(zset.members) == old(len(zset.members)) + 1
+//@ loop 0
+//@   invariant -1 <= rangeindex && rangeindex < len(zset.members) && tm == nil
+//@   invariant zNN(zset)
+//@   invariant zSorted(zset)
+//@   invariant zUniq(zset)
+//@   invariant len(zset.members) == old(len(zset.members))
+//@   invariant forall i int :: 0 <= i && i <= rangeindex ==> zset.members[i].Member != member
+//@   decreases len(zset.members) - rangeindex
+
+// ---------------------------------------------------------------- set / sorted set records and handlers
+
+//@ func (*Database).GetSetRecord
+//@ requires {C18} dbOK(db)
+//@ assigns sm_dom[&db.Records.Map], sm_val[&db.Records.Map]
+//@ ensures {C18} dbOK(db)
+//@ ensures {C18} err == nil <==> (!old(isRec(db.Records, key)) || typeis(old(recOf(db.Records, key)).Data, "*server.Set"))
+//@ ensures {C18} err == nil ==> result1 != nil
+//@ ensures {C18} err == nil ==> isRec(db.Records, key)
+//@ ensures {C18} err == nil ==> recOf(db.Records, key) == result0
+//@ ensures {C18} err == nil ==> typeis(result0.Data, "*server.Set") && unbox(result0.Data, "*server.Set") == result1
+//@ ensures {C18} err == nil && old(isRec(db.Records, key)) ==> result0 == old(recOf(db.Records, key))
+//@ ensures {C18} err == nil && !old(isRec(db.Records, key)) ==> fresh(result1) && len(result1.members) == 0 && fresh(result1.members)
+//@ ensures {C18} err != nil ==> result0 == nil && result1 == nil
+//@ ensures {C18} forall q iface :: q != iface(key) || old(isRec(db.Records, key)) ==> sm_dom[&db.Records.Map][q] == old(sm_dom[&db.Records.Map][q]) && sm_val[&db.Records.Map][q] == old(sm_val[&db.Records.Map][q])
+
+//@ func (*Database).FindSetRecord
+//@ requires {C18} dbOK(db)
+//@ assigns nothing
+//@ ensures {C18} err == nil <==> (!isRec(db.Records, key) || typeis(recOf(db.Records, key).Data, "*server.Set"))
+//@ ensures {C18} err == nil && isRec(db.Records, key) ==> result1 != nil && result0 == recOf(db.Records, key) && unbox(result0.Data, "*server.Set") == result1
+//@ ensures {C18} !isRec(db.Records, key) || err != nil ==> result0 == nil && result1 == nil
+
+//@ func (*Database).GetZSetRecord
+//@ requires {C18} dbOK(db)
+//@ assigns sm_dom[&db.Records.Map], sm_val[&db.Records.Map]
+//@ ensures {C18} dbOK(db)
+//@ ensures {C18} err == nil <==> (!old(isRec(db.Records, key)) || typeis(old(recOf(db.Records, key)).Data, "*server.ZSet"))
+//@ ensures {C18} err == nil ==> result1 != nil
+//@ ensures {C18} err == nil ==> isRec(db.Records, key)
+//@ ensures {C18} err == nil ==> recOf(db.Records, key) == result0
+//@ ensures {C18} err == nil ==> typeis(result0.Data, "*server.ZSet") && unbox(result0.Data, "*server.ZSet") == result1
+//@ ensures {C18} err == nil && old(isRec(db.Records, key)) ==> result0 == old(recOf(db.Records, key))
+//@ ensures {C18} err == nil && !old(isRec(db.Records, key)) ==> fresh(result1) && len(result1.members) == 0 && fresh(result1.members)
+//@ ensures {C18} err != nil ==> result0 == nil && result1 == nil
+//@ ensures {C18} forall q iface :: q != iface(key) || old(isRec(db.Records, key)) ==> sm_dom[&db.Records.Map][q] == old(sm_dom[&db.Records.Map][q]) && sm_val[&db.Records.Map][q] == old(sm_val[&db.Records.Map][q])
+
+//@ func (*Database).FindZSetRecord
+//@ requires {C18} dbOK(db)
+//@ assigns nothing
+//@ ensures {C18} err == nil <==> (!isRec(db.Records, key) || typeis(recOf(db.Records, key).Data, "*server.ZSet"))
+//@ ensures {C18} err == nil && isRec(db.Records, key) ==> result1 != nil && result0 == recOf(db.Records, key) && unbox(result0.Data, "*server.ZSet") == result1
+//@ ensures {C18} !isRec(db.Records, key) || err != nil ==> result0 == nil && result1 == nil
+
+
+//@ spec func kIsSet(s ref, id int, k string) bool = kHas(s, id, k) && typeis(kData(s, id, k), "*server.Set")
+//@ spec func kSet(s ref, id int, k string) ref = unbox(kData(s, id, k), "*server.Set")
+//@ spec func kIsZSet(s ref, id int, k string) bool = kHas(s, id, k) && typeis(kData(s, id, k), "*server.ZSet")
+//@ spec func kZSet(s ref, id int, k string) ref = unbox(kData(s, id, k), "*server.ZSet")
+
+// The invariant of a stored collection (no duplicates / ordered, one entry per member) is required for the key the command works on and
+// re-established for it; that commands on OTHER keys leave it intact rests on the collections not sharing backing arrays (ownership), which
+// is not an obligation.
+
+//@ func (*Server).SAdd
+//@ requires {C18} storeOK(server) && conn != nil && (kIsSet(server, conn.id, key) ==> noDupStr(kSet(server, conn.id, key).members) && arr(members) != arr(kSet(server, conn.id, key).members))
+//@ assigns sm_dom[&server.Databases.Map], sm_val[&server.Databases.Map], sm_dom[&recs(server, conn.id).Map], sm_val[&recs(server, conn.id).Map], Set.members, comp:E|Str, alloc
+//@ ensures {C18} storeOK(server)
+//@ ensures {C18} (!old(kHas(server, conn.id, key)) || old(kIsSet(server, conn.id, key))) ==> err == nil && kIsSet(server, conn.id, key) && noDupStr(kSet(server, conn.id, key).members)
+//@ ensures {C18} old(kIsSet(server, conn.id, key)) ==> kSet(server, conn.id, key) == old(kSet(server, conn.id, key)) && intReply(result0, len(kSet(server, conn.id, key).members) - old(len(kSet(server, conn.id, key).members)))
+//@ ensures {C18} !old(kHas(server, conn.id, key)) ==> intReply(result0, len(kSet(server, conn.id, key).members))
+//@ ensures {C18} (!old(kHas(server, conn.id, key)) || old(kIsSet(server, conn.id, key))) ==> forall j int :: 0 <= j && j < len(members) ==> inStrs(kSet(server, conn.id, key).members, len(kSet(server, conn.id, key).members), old(members[j]))
+//@ ensures {C18} old(hasDB(server, conn.id)) ==> forall q iface :: q != iface(key) ==> sm_dom[&recs(server, conn.id).Map][q] == old(sm_dom[&recs(server, conn.id).Map][q]) && sm_val[&recs(server, conn.id).Map][q] == old(sm_val[&recs(server, conn.id).Map][q])
+
+//@ func (*Server).SRem
+//@ requires {C18} storeOK(server) && conn != nil && (kIsSet(server, conn.id, key) ==> noDupStr(kSet(server, conn.id, key).members) && arr(members) != arr(kSet(server, conn.id, key).members))
+//@ assigns sm_dom[&server.Databases.Map], sm_val[&server.Databases.Map], sm_dom[&recs(server, conn.id).Map], Set.members, comp:E|Str, alloc
+//@ ensures {C18} storeOK(server)
+//@ ensures {C18} !old(kHas(server, conn.id, key)) ==> err == nil && intReply(result0, 0) && !kHas(server, conn.id, key)
+//@ ensures {C18} old(kIsSet(server, conn.id, key)) ==> err == nil && intReply(result0, old(len(kSet(server, conn.id, key).members)) - len(old(kSet(server, conn.id, key)).members))
+//@ ensures {C18} old(kIsSet(server, conn.id, key)) ==> (kHas(server, conn.id, key) <==> len(old(kSet(server, conn.id, key)).members) > 0)
+//@ ensures {C18} old(kIsSet(server, conn.id, key)) ==> noDupStr(old(kSet(server, conn.id, key)).members) && forall j int, i int :: 0 <= j && j < len(members) && 0 <= i && i < len(old(kSet(server, conn.id, key)).members) ==> old(kSet(server, conn.id, key)).members[i] != members[j]
+//@ ensures {C18} old(hasDB(server, conn.id)) ==> forall q iface :: q != iface(key) ==> sm_dom[&recs(server, conn.id).Map][q] == old(sm_dom[&recs(server, conn.id).Map][q]) && sm_val[&recs(server, conn.id).Map][q] == old(sm_val[&recs(server, conn.id).Map][q])
+
+//@ func (*Server).SMembers
+//@ requires {C18} storeOK(server) && conn != nil
+//@ assigns sm_dom[&server.Databases.Map], sm_val[&server.Databases.Map]
+//@ ensures {C18} storeOK(server)
+//@ ensures {C18} !old(kHas(server, conn.id, key)) ==> err == nil && result0 != nil && result0.Type == proto.ArrayMessage && result0.array != nil && len(result0.array.msgs) == 0
+//@ ensures {C18} old(kIsSet(server, conn.id, key)) ==> err == nil && result0 != nil && result0.Type == proto.ArrayMessage && result0.array != nil && len(result0.array.msgs) == old(len(kSet(server, conn.id, key).members)) && forall j int :: 0 <= j && j < len(result0.array.msgs) ==> result0.array.msgs[j] != nil && result0.array.msgs[j].Type == proto.BulkMessage && result0.array.msgs[j].bytes != nil && string(result0.array.msgs[j].bytes) == old(kSet(server, conn.id, key).members[j])
+//@ ensures {C18} old(hasDB(server, conn.id)) ==> forall q iface :: sm_dom[&recs(server, conn.id).Map][q] == old(sm_dom[&recs(server, conn.id).Map][q]) && sm_val[&recs(server, conn.id).Map][q] == old(sm_val[&recs(server, conn.id).Map][q])
+//@ loop 0
+//@   invariant array != nil && arrayMsg != nil && arrayMsg.array == array && arrayMsg.Type == proto.ArrayMessage && fresh(array) && fresh(arrayMsg) && fresh(array.msgs) && allocated(array.msgs)
+//@   invariant -1 <= rangeindex && len(array.msgs) == rangeindex + 1
+//@   invariant forall j int :: 0 <= j && j <= rangeindex ==> array.msgs[j] != nil && fresh(array.msgs[j]) && array.msgs[j].Type == proto.BulkMessage && array.msgs[j].bytes != nil && string(array.msgs[j].bytes) == set.members[j]
